@@ -21,13 +21,14 @@ CFG = dict(
                counters={"rt:ok:strict": 40000, "rt:ok:nlri": 8000, "updates:l2vpn-evpn": 500, "updates:ls": 500,
                          "updates:ipv4-flowspec": 500, "updates:ipv6-vpn": 500, "updates:two-byte-as": 50,
                          "rt:attr:16": 800, "rt:attr:23": 400, "rt:attr:29": 400, "rt:attr:40": 400, "rt:attr:unknown": 400,
-                         "b:attr-accepted": 5000, "b:attr-rejected": 2000, "b:attr-used": 4000,
-                         "b:unknown-with-wellknown-code-accepted": 300,
-                         "b:nlri-accepted": 3000, "b:nlri-rejected": 2000,
+                         "b:attr-accepted": 3000, "b:attr-rejected": 2000, "b:attr-used": 3000,
+                         "b:attr-in:Unknown": 1000, "b:attr-in:AsPath": 500, "b:attr-in:Origin": 300, "b:nlri-in:mutated": 5000,
+                         "b:nlri-accepted": 2000, "b:nlri-rejected": 2000,
                          "c:added": 3000, "c:nexthop-checked": 2000, "c:origin-defaulted": 500, "c:as-path-defaulted": 500,
                          "c:submitted:l2vpn-evpn": 200, "c:submitted:ipv4-flowspec": 200, "c:submitted:ipv6-vpn": 200}),
     quick=[e2("all", "event::verif::c17::run", 2, 40)],
     thorough=[e2("a", "event::verif::c17::run", 4, 200, part="a"),
-              e2("b", "event::verif::c17::run", 6, 200, part="b"),
+              e2("b1", "event::verif::c17::run", 5, 200, part="b1"),
+              e2("b2", "event::verif::c17::run", 3, 200, part="b2"),
               e2("c", "event::verif::c17::run", 2, 200, part="c")],
 )
